@@ -110,6 +110,7 @@ fn deposit(k: u64, pos: &[u32]) -> u128 {
 }
 
 const ORACLE_MAX_BITS: usize = 20;
+const MAX_FREE_BITS: u32 = 24;
 
 /// every submask of `x`, decreasing; `None` when there are too many to enumerate
 fn oracle_submasks(x: u128, w: u32) -> Option<Vec<u128>> {
@@ -268,6 +269,37 @@ fn oracle_neighbours(kind: &str, n: u64, m: u64, i: u64, j: u64) -> Vec<(u64, u6
 
 // ---------------------------------------------------------------- running one case
 
+/// `next_permutation` / `iter_permutations` are generic in `T: Ord`; the model works on integers.  Run the same
+/// sequence through two other element types whose order mirrors the integers' (`Reverse` of the negated value,
+/// and a struct comparing by a string key) and report whether they step the same way.
+#[derive(Clone, PartialEq, Eq, PartialOrd, Ord, Debug)]
+struct Keyed {
+    key: String, // order-preserving encoding of the value
+    val: i64,
+}
+
+fn keyed(v: i64) -> Keyed {
+    // offset to unsigned, fixed width: lexicographic order of the strings = numeric order
+    Keyed { key: format!("{:020}", (v as i128 - i64::MIN as i128) as u128), val: v }
+}
+
+fn generic_np_agrees(d: &[i64], expect: &(Vec<i64>, bool)) -> bool {
+    use std::cmp::Reverse;
+    let mut a: Vec<Reverse<i128>> = d.iter().map(|&v| Reverse(-(v as i128))).collect();
+    let fa = next_permutation(&mut a);
+    let ra: Vec<i64> = a.iter().map(|r| (-r.0) as i64).collect();
+    let mut b: Vec<Keyed> = d.iter().map(|&v| keyed(v)).collect();
+    let fb = next_permutation(&mut b);
+    let rb: Vec<i64> = b.iter().map(|k| k.val).collect();
+    (ra, fa) == *expect && (rb, fb) == *expect
+}
+
+fn generic_perms_agree(d: &[i64], expect: &[Vec<i64>], limit: usize) -> bool {
+    let b: Vec<Keyed> = d.iter().map(|&v| keyed(v)).collect();
+    let got: Vec<Vec<i64>> = iter_permutations(b).take(limit).map(|l| l.iter().map(|k| k.val).collect()).collect();
+    got.as_slice() == expect
+}
+
 fn with_oracle(raw: String, agrees: Option<bool>) -> String {
     match agrees {
         Some(false) => out2(&raw, &format!("oracle-mismatch {}", raw)),
@@ -282,7 +314,11 @@ macro_rules! run_masks {
         let oracle = if $sub { oracle_submasks(xb, $w) } else { oracle_supermasks(xb, $w) };
         // expected length 2^k; two more so that an over-long (or endless) iterator is seen, not waited for
         let k = if $sub { xb.count_ones() } else { $w - xb.count_ones() };
-        let limit: usize = if k >= 40 { usize::MAX } else { (1usize << k) + 2 };
+        if k > MAX_FREE_BITS {
+            // 2^k elements: not a case this harness (or the model driver) will enumerate
+            return out1("refused:too-many-elements");
+        }
+        let limit: usize = (1usize << k) + 2;
         match catch(|| {
             if $sub {
                 iter_submasks(x).take(limit).collect::<Vec<$t>>()
@@ -352,17 +388,27 @@ fn run_case(po: &mut PermOracle, line: &str) -> String {
                 Err(e) => out1(&e),
                 Ok((v, b)) => {
                     let raw = format!("{} {}", show_ints(&v), b);
-                    let agrees = if d.len() <= PERM_ORACLE_MAX_LEN { Some(po.successor(&d) == (v, b)) } else { None };
+                    let res = (v, b);
+                    if catch(|| generic_np_agrees(&d, &res)) != Ok(true) {
+                        return out2(&raw, &format!("generic-mismatch {}", raw));
+                    }
+                    let agrees = if d.len() <= PERM_ORACLE_MAX_LEN { Some(po.successor(&d) == res) } else { None };
                     with_oracle(raw, agrees)
                 }
             }
         }
         ("perms", 2) => {
             let d = parse_list(toks[1]);
-            let limit = if d.len() <= 12 { factorial(d.len()) + 2 } else { usize::MAX };
+            if d.len() > PERM_ORACLE_MAX_LEN {
+                return out1("refused:too-many-elements");
+            }
+            let limit = factorial(d.len()) + 2;
             match catch(|| iter_permutations(d.clone()).take(limit).collect::<Vec<Vec<i64>>>()) {
                 Err(e) => out1(&e),
                 Ok(ls) => {
+                    if d.len() <= 7 && catch(|| generic_perms_agree(&d, &ls, limit)) != Ok(true) {
+                        return out2(&show_perms(&ls), &format!("generic-mismatch {}", show_perms(&ls)));
+                    }
                     let agrees = if d.len() <= PERM_ORACLE_MAX_LEN { Some(po.table(&d) == &ls) } else { None };
                     with_oracle(show_perms(&ls), agrees)
                 }
